@@ -24,6 +24,29 @@ func cmdFind(body ...gen.Node) gen.Command {
 	return gen.Command{Amount: gen.Amount{Kind: "all"}, Body: body}
 }
 
+// firstSubName: the name of the first inline subroutine declared in nodes ("" if none).
+func firstSubName(nodes []gen.Node) string {
+	for _, n := range nodes {
+		switch x := n.(type) {
+		case gen.SubDef:
+			return x.Name
+		case gen.Seq:
+			if s := firstSubName(x.Items); s != "" {
+				return s
+			}
+		case gen.Loop:
+			if s := firstSubName([]gen.Node{x.Body}); s != "" {
+				return s
+			}
+		case gen.Or:
+			if s := firstSubName(x.Alts); s != "" {
+				return s
+			}
+		}
+	}
+	return ""
+}
+
 func hasSubDef(nodes []gen.Node) bool {
 	for _, n := range nodes {
 		switch x := n.(type) {
@@ -180,6 +203,27 @@ func c13Variants(rng *gen.Rng, i int) ([]c13Variant, [][]byte) {
 		vs[k].src = gen.RenderGlobal(g) + "\n" + gen.RenderCommand(c1) + "\n" + gen.RenderGlobal(g2) + "\n" + gen.RenderCommand(c1) + "\n" + gen.RenderCommand(c2)
 		vs[k].concat = []int{r1, r2, r3}
 	}
+	// names that live INSIDE a stored pattern stay inside: (a) a stored pattern built on another stored pattern keeps
+	// the meaning that one had when it was defined, also when the inner name is defined again before the command;
+	// (b) an inline subroutine of the stored pattern's body does not occupy its name in the referencing command
+	{
+		inner := []gen.Node{atomPG.Node(0)}
+		outerBody := append([]gen.Node{gen.GlobalRef{Name: "gy"}}, B...)
+		redefined := []gen.Node{gen.Lit{S: []string{"x", "b", "ab"}[rng.Intn(3)]}}
+		gy1 := gen.Global{Name: "gy", Body: inner}
+		gxo := gen.Global{Name: "gx", Body: outerBody}
+		gy2 := gen.Global{Name: "gy", Body: redefined}
+		cmd := cmdFind(wrapPS(gen.GlobalRef{Name: "gx"}, gen.GlobalRef{Name: "gy"})...)
+		w := add("in-place:nested-stored-patterns-inner-name-redefined", -1, nil, cmdFind(wrapPS(gen.Seq{Items: append(append([]gen.Node{}, inner...), B...)}, gen.Seq{Items: redefined})...))
+		k := add("nested-stored-patterns-inner-name-redefined", w, []gen.Global{gy1, gxo}, cmd)
+		vs[k].src = gen.RenderGlobal(gy1) + "\n" + gen.RenderGlobal(gxo) + "\n" + gen.RenderGlobal(gy2) + "\n" + gen.RenderCommand(cmd)
+		if nm := firstSubName(B); nm != "" {
+			w2 := add("in-place:own-subroutine-named-like-one-inside-the-stored-pattern", -1, nil,
+				cmdFind(wrapPS(grp, gen.SubDef{Name: "zq9", Body: []gen.Node{gen.Lit{S: "x"}}}, gen.Loop{Min: 0, Max: 1, Form: "maybe", Body: gen.SubCall{Name: "zq9"}})...))
+			add("own-subroutine-named-like-one-inside-the-stored-pattern", w2, []gen.Global{g},
+				cmdFind(wrapPS(gen.GlobalRef{Name: "gx"}, gen.SubDef{Name: nm, Body: []gen.Node{gen.Lit{S: "x"}}}, gen.Loop{Min: 0, Max: 1, Form: "maybe", Body: gen.SubCall{Name: nm}})...))
+		}
+	}
 	// three commands sharing one definition == concatenation of the commands taken alone
 	c3 := cmdFind(gen.Or{Alts: []gen.Node{gen.Lit{S: "b"}, gen.GlobalRef{Name: "gx"}}}, gen.Loop{Min: 0, Max: 1, Form: "maybe", Body: gen.GlobalRef{Name: "gx"}})
 	if !subDup {
@@ -207,7 +251,7 @@ func C13(r *drv.Run) {
 	if !quick(r) {
 		nbody, nhist = 20000, 2500
 	}
-	r.Rule = "(1) capture-free bodies B (with or, in, not in, loops, nested and recursive subroutines) in contexts prefix/suffix, inside a loop, inside an alternation: B in place == {B}=s (+0..2 calls) == set g to pattern B referenced 1..3 times, also referenced before AND inside a counted loop (exactly 2 / at least 2 / between 3 and 4), first mentioned inside a zero-count loop and then used, all also judged by the reference matcher; (2) a three-command source sharing one definition == concatenation of its commands compiled alone; a source that defines the name AGAIN with another body between its commands == concatenation of each command compiled alone with the definition in force where it stands; (3) recorded sequential histories of Compile/Run calls in random order over a pool of sources (including sources whose compilation fails in the parser, the regex sub-parser, the generator and the type checker) and texts, checked offline against the pure-function model: each call's result digest equals the digest the same call produced alone in a fresh worker process; (4) canonical bytecode digest (loop ids normalised) unchanged by runs and equal across recompilations. Non-trivial = variant pair with >= 1 match compared / history call whose isolated result has >= 1 match; distinct by (variant source, text) and (history, call index)."
+	r.Rule = "(1) capture-free bodies B (with or, in, not in, loops, nested and recursive subroutines) in contexts prefix/suffix, inside a loop, inside an alternation: B in place == {B}=s (+0..2 calls) == set g to pattern B referenced 1..3 times, also referenced before AND inside a counted loop (exactly 2 / at least 2 / between 3 and 4), first mentioned inside a zero-count loop and then used, a stored pattern built on another one whose name is defined again before the command, an inline subroutine of the command named like one inside the stored pattern, all also judged by the reference matcher; (2) a three-command source sharing one definition == concatenation of its commands compiled alone; a source that defines the name AGAIN with another body between its commands == concatenation of each command compiled alone with the definition in force where it stands; (3) recorded sequential histories of Compile/Run calls in random order over a pool of sources (including sources whose compilation fails in the parser, the regex sub-parser, the generator and the type checker) and texts, checked offline against the pure-function model: each call's result digest equals the digest the same call produced alone in a fresh worker process; (4) canonical bytecode digest (loop ids normalised) unchanged by runs and equal across recompilations. Non-trivial = variant pair with >= 1 match compared / history call whose isolated result has >= 1 match; distinct by (variant source, text) and (history, call index)."
 	r.Assumptions = []string{
 		"bodies are capture-free, as the property says",
 		"a body that itself declares subroutines is not duplicated textually (two declarations of one name are rejected by design)",
@@ -287,7 +331,7 @@ func c13CheckVariants(r *drv.Run, vs []c13Variant, srcs [][]byte, texts [][]byte
 		for k, v := range vs {
 			got := run(k, ti)
 			// against the reference (single-command variants)
-			if len(v.prog.Commands) == 1 {
+			if len(v.prog.Commands) == 1 && v.src == "" {
 				alts, gaveUp := expectedScans(v.prog, v.prog.Commands[0].Body, string(text), 300000)
 				if !gaveUp {
 					ok := false
